@@ -2,6 +2,7 @@ package rules
 
 import (
 	"go/ast"
+	"go/token"
 	"go/types"
 	"strings"
 
@@ -27,6 +28,8 @@ func init() {
 			"goroutine's treatment of malformed peer messages beyond closing the connection.",
 		Run: runC17,
 		Mutants: []Mutant{
+			{Name: "diff-against-a-remembered-copy-of-the-advertised-set", File: "internal/bgp/native/native.go",
+				Old: "\tstats.AdvertisedPrefixes(s.peerName, len(s.advertised))\n\n\tfor {\n\t\tfor s.new == nil && s.conn != nil {\n\t\t\ts.cond.Wait()\n\t\t}\n\n\t\tif s.closed {\n\t\t\treturn false\n\t\t}\n\t\tif s.conn == nil {\n\t\t\treturn true\n\t\t}\n\t\tif s.new == nil {\n\t\t\t// nil is \"no pending updates\", contrast to a non-nil\n\t\t\t// empty map which means \"withdraw all\".\n\t\t\tcontinue\n\t\t}\n\n\t\tfor c, adv := range s.new {\n\t\t\tif adv2, ok := s.advertised[c]; ok && adv.Equal(adv2) {", New: "\tsent := s.advertised\n\tstats.AdvertisedPrefixes(s.peerName, len(s.advertised))\n\n\tfor {\n\t\tfor s.new == nil && s.conn != nil {\n\t\t\ts.cond.Wait()\n\t\t}\n\n\t\tif s.closed {\n\t\t\treturn false\n\t\t}\n\t\tif s.conn == nil {\n\t\t\treturn true\n\t\t}\n\t\tif s.new == nil {\n\t\t\t// nil is \"no pending updates\", contrast to a non-nil\n\t\t\t// empty map which means \"withdraw all\".\n\t\t\tcontinue\n\t\t}\n\n\t\tfor c, adv := range s.new {\n\t\t\tif adv2, ok := sent[c]; ok && adv.Equal(adv2) {", Expect: "STALE-ALIAS"},
 			{Name: "lock-released-around-withdraw", File: "internal/bgp/native/native.go",
 				Old: "\t\t\tif err := sendWithdraw(s.conn, wdr); err != nil {", New: "\t\t\tconn := s.conn\n\t\t\ts.mu.Unlock()\n\t\t\terr := sendWithdraw(conn, wdr)\n\t\t\ts.mu.Lock()\n\t\t\tif err != nil {", Expect: "ROUND-ATOMIC"},
 			{Name: "next-hop-from-configured-source", File: "internal/bgp/native/native.go",
@@ -72,6 +75,7 @@ func runC17(p *chk.Prog, r *chk.Report) {
 	c17Send(p, r)
 	c17Pending(p, r)
 	c17Diff(p, r)
+	c17StaleAlias(p, r)
 	// what a (re)connection negotiated is what the updates of that connection are encoded with (NEGOTIATED, shared
 	// with C16): a capability remembered from an earlier connection makes the full re-send undecodable for the peer
 	c16Negotiated(p, r)
@@ -856,5 +860,115 @@ func c17RoundAtomic(p *chk.Prog, r *chk.Report) {
 			x.Check("connect:next-hop-is-the-local-address", st.Pos(), ok, "", "the next hop is taken from something other than the connection's local address (a configured address in 16-byte form, say): encodePathAttrs writes the NEXT_HOP attribute with length 4 followed by the bytes as they are, so every UPDATE is malformed")
 		}
 		x.Check("connect:next-hop-assigned", c.Pos(), n >= 1, "", "s.nextHop is not assigned in connect")
+	}
+}
+
+// c17StaleAlias: the set the peer is known to hold is the field s.advertised, which every round replaces by the set just
+// sent. A local that remembers an earlier value of that field (or of s.new) and is read after the field was replaced is
+// the set of some earlier round: a prefix withdrawn since then and announced again is taken for "already at the peer"
+// and never re-sent.
+func c17StaleAlias(p *chk.Prog, r *chk.Report) {
+	x := r.Rule("STALE-ALIAS", "B path (value flow)", "in the methods of native.session no local that was assigned the value of s.advertised or s.new is read on a path on which that field has been assigned since: the round's comparisons read the current sets", 0)
+	n := 0
+	for _, f := range p.FuncsIn(natPkg) {
+		if f.Body == nil || f.Recv() == nil || !strings.HasSuffix(f.Recv().Type().String(), "native.session") {
+			continue
+		}
+		g := f.Graph()
+		for _, fld := range []string{"advertised", "new"} {
+			fld := fld
+			isFieldStore := func(nd ast.Node) bool {
+				as, ok := nd.(*ast.AssignStmt)
+				if !ok {
+					return false
+				}
+				for _, l := range as.Lhs {
+					if f.MatchWith("RECV."+fld, l, chk.H("RECV", isRecv(f))) != nil {
+						return true
+					}
+				}
+				return false
+			}
+			for _, d := range g.Find(func(nd ast.Node) bool {
+				as, ok := nd.(*ast.AssignStmt)
+				if !ok || len(as.Lhs) != len(as.Rhs) {
+					return false
+				}
+				for i, l := range as.Lhs {
+					if _, isId := ast.Unparen(l).(*ast.Ident); isId && f.MatchWith("RECV."+fld, as.Rhs[i], chk.H("RECV", isRecv(f))) != nil {
+						return true
+					}
+				}
+				return false
+			}) {
+				as := d.Node.(*ast.AssignStmt)
+				for i, l := range as.Lhs {
+					id, isId := ast.Unparen(l).(*ast.Ident)
+					if !isId || id.Name == "_" || f.MatchWith("RECV."+fld, as.Rhs[i], chk.H("RECV", isRecv(f))) == nil {
+						continue
+					}
+					o := f.ObjOf(id)
+					if o == nil {
+						continue
+					}
+					n++
+					redef := func(nd ast.Node) bool {
+						a2, ok := nd.(*ast.AssignStmt)
+						if !ok || nd == d.Node {
+							return false
+						}
+						for _, l2 := range a2.Lhs {
+							if f.ObjOf(l2) == o {
+								return true
+							}
+						}
+						return false
+					}
+					reads := func(nd ast.Node) bool {
+						found := false
+						chk.InspectNoLit(nd, func(m ast.Node) bool {
+							if u, isU := m.(*ast.Ident); isU && f.ObjOf(u) == o && f.Info().Defs[u] == nil {
+								// not the left side of its own (re)definition
+								if a2, isAs := nd.(*ast.AssignStmt); isAs {
+									for _, l2 := range a2.Lhs {
+										if l2 == ast.Expr(u) {
+											return true
+										}
+									}
+								}
+								found = true
+							}
+							return !found
+						})
+						return found
+					}
+					stale := false
+					var at token.Pos
+					for _, st := range g.Find(isFieldStore) {
+						// the store is reachable from the definition without the local being refreshed ...
+						w1 := (&chk.Walk{G: g, From: d, Stop: redef, Hit: func(nd ast.Node) bool { return nd == st.Top }}).Run()
+						if !w1.Found && st.Top != d.Top {
+							continue
+						}
+						if st.Top == d.Top {
+							continue
+						}
+						// ... and a read of the local is reachable from the store without it being refreshed
+						w2 := (&chk.Walk{G: g, From: st, Stop: redef, Hit: reads}).Run()
+						if w2.Found {
+							stale, at = true, w2.Pos()
+						}
+					}
+					pos := d.Pos()
+					if stale && at.IsValid() {
+						pos = at
+					}
+					x.Check(f.Name()+":"+o.Name()+"=s."+fld, pos, !stale, "", "`"+o.Name()+"` holds an earlier value of s."+fld+" and is read after the field was replaced: the comparison is made against the set of an earlier round (a prefix withdrawn and announced again is taken for already sent)")
+				}
+			}
+		}
+	}
+	if n == 0 {
+		x.OK("no-local-copies-of-the-sets", 0, "")
 	}
 }
